@@ -67,7 +67,7 @@ class VOpts:
         in_decl=['bus_desc', 'bus_asc', 'bus_mixed', 'bus_off', 'bus_hi', 'bus_hi_asc'], wire_decl=['bus'], out_ref=['whole'], in_ref=['whole', 'whole_off'], out_decl=['bus_desc', 'bus_asc'], port_order=[1, 2, 3],
         stmt_order=['inst_first', 'interleaved', 'inst_reversed'], pin_order=['rev', 'out_first'], out_style=['assign'],
         escape=[True], noise=['line_comment', 'block_comment', 'star_comment', 'attribute', 'star_attribute', 'tabs_newlines', 'crlf'], redeclare=[True],
-        const_style=['bus', 'bus4h', 'bus3d', 'alias', 'alias_rev'], const_spelling=['h', 'd', 'B', 'H', 'D'], open_pin=['empty'], assign_order=['rev'], alias_chain=[True, 'rev'], concat_assign=[True, 'vec_rhs', 'vec_lhs'], multi_module=[True],
+        const_style=['bus', 'bus4h', 'bus3d', 'alias', 'alias_rev', 'bus4h_lo', 'bus3d_hi', 'two_each'], const_spelling=['h', 'd', 'B', 'H', 'D'], open_pin=['empty'], assign_order=['rev'], alias_chain=[True, 'rev'], concat_assign=[True, 'vec_rhs', 'vec_lhs'], multi_module=[True],
     )
 
     def __init__(self, **kw):
@@ -191,6 +191,18 @@ def verilog(nl, cmap, dffcell, opts, const_gate_inputs=None):
         decl.append('wire [2:0] kk;')
         assigns.append(f"assign kk = 3'{'D' if sp.isupper() else 'd'}5;")
         sig_name['c0'], sig_name['c1'] = 'kk[1]', 'kk[0]'
+    elif opts.const_style == 'bus4h_lo':     # the used 1 is the lower of two 1 bits, the used 0 the upper of two 0 bits
+        decl.append('wire [3:0] kk;')
+        assigns.append("assign kk = 4'ha;")
+        sig_name['c0'], sig_name['c1'] = 'kk[2]', 'kk[1]'
+    elif opts.const_style == 'bus3d_hi':     # the used 1 is the upper of two 1 bits
+        decl.append('wire [2:0] kk;')
+        assigns.append("assign kk = 3'd5;")
+        sig_name['c0'], sig_name['c1'] = 'kk[1]', 'kk[2]'
+    elif opts.const_style == 'two_each':     # several scalar constant assigns of each value; the last of each is used
+        decl.append('wire k1a, k1b, k0a, k0b;')
+        assigns += ["assign k1a = 1'b1;", "assign k0a = 1'b0;", "assign k1b = 1'b1;", "assign k0b = 1'b0;"]
+        sig_name['c0'], sig_name['c1'] = 'k0b', 'k1b'
     # ---- instances
     def pins_text(pairs):
         if opts.pin_order == 'rev': pairs = pairs[::-1]
